@@ -12,6 +12,8 @@
                                        caller scripts from the result / from old roots cannot affect the other side
     T4  `hConvert_*`                   the same for a single `_convert` (site S1 plays no role)
         `IntactFor`, `hConvertDict_intact`, `hConvert_intact`   the statement in one piece
+    weak `hConvertDict_intact_weak`, `hConvertDict_{frame,fresh,disjoint}_weak`: for `convert_dict` only S1 and S3 are
+        needed, S2 may be ANY mode (`hConvert_rel`: `_convert` relative to a region containing its input)
     T5  `example_all_deep`, `step_alias_*`, `doc_*`, `const_alias_*`, `global_fn_shares`   kernel-checked examples
   Proof architecture: one combined specification `Spec n0 h c Q` (nothing below `n0` is written; on return the
   region `[n0, next)` is closed and `Q` holds) with a bind rule; every piece of the model gets one small lemma.
@@ -817,6 +819,222 @@ theorem hConvert_intact (A : Atoms) {S : Sites} (hst : S.step.copies = true) (hc
     (fuel : Nat) (m : HMapping) (hm : mapFnsOk m) : IntactFor (hConvert A S fuel m) :=
   (hConvert_ok A hst hc fuel m hm).intact
 
+/-! ## weak hypotheses for `convert_dict`: site S2 may do anything
+
+  For `convert_dict` only S1 (`doc`) and S3 (`const`) matter: whatever `_convert` does at S2 (deep copy, shallow
+  copy, no copy at all, …), it works on S1's private copy.  The `_convert`-level specification is therefore made
+  RELATIVE: started on an input that lies in the region `[n0, next)`, it writes nothing below `n0`, keeps the
+  region closed and returns an item of the region. -/
+
+theorem spec_copyAt_rel {n0 : Nat} {h : Heap} (m : Mode) (fuel : Nat) {i : Item} (le : n0 ≤ h.next)
+    (nc : NewClosed n0 h) (hi : ItemIn n0 h i) : Spec n0 h (copyAt m fuel h i) (ItemIn n0) := by
+  cases m
+  case alias => exact spec_pure nc hi
+  case error => exact spec_fail
+  case shallow =>
+    cases i with
+    | atom v => exact spec_pure nc (itemIn_atom _ _ _)
+    | ref a =>
+      have ra := hi a rfl
+      exact spec_alloc _ le nc (items_of_closed nc ra.1 ra.2)
+  case deep => exact spec_copyAt rfl fuel i le nc
+  case rebuild => exact spec_copyAt rfl fuel i le nc
+
+/-- what a (nested) converter satisfies on an input of the region, whatever it does at S2 -/
+def ConvRel (f : Heap → Item → R Item) : Prop :=
+  ∀ n0 h i, n0 ≤ h.next → NewClosed n0 h → ItemIn n0 h i → Spec n0 h (f h i) (ItemIn n0)
+
+theorem ConvOk.rel {f : Heap → Item → R Item} (hf : ConvOk f) : ConvRel f :=
+  fun n0 h i le nc _ => hf n0 h i le nc
+
+def HCEntry.OkRel : HCEntry → Prop
+  | .sub f => ConvRel f
+  | .fn f _ => FnOk f
+  | _ => True
+
+def COkRel (m : HCMapping) : Prop := ∀ p, p ∈ m → p.2.OkRel
+
+theorem spec_hSub_rel (A : Atoms) {n0 : Nat} {f : Heap → Item → R Item} (hf : ConvRel f) (k : String) (out : Item)
+    (h : Heap) (content : Item) (le : n0 ≤ h.next) (nc : NewClosed n0 h) (ho : ItemIn n0 h out)
+    (hct : ItemIn n0 h content) : Spec n0 h (hSub A f k out h content) (fun _ _ => True) := by
+  simp only [hSub]
+  cases isNoneItem A content with
+  | true => exact spec_pure nc trivial
+  | false =>
+    simp only [Bool.false_eq_true, if_false]
+    cases isListItem h content with
+    | true =>
+      simp only [if_true]
+      cases content with
+      | atom v => exact spec_pure nc trivial
+      | ref a =>
+        simp only
+        have ra := hct a rfl
+        refine spec_bind le (spec_mapItems (itemIn_mono' n0) (fun h i le nc hi => hf n0 h i le nc hi) _ h le nc
+          (items_of_closed nc ra.1 ra.2)) ?_
+        intro h1 its le1 m1 nc1 q1
+        refine spec_bind le1 (spec_alloc _ le1 nc1 q1) ?_
+        intro h2 l _ m2 nc2 q2
+        exact spec_hSet nc2 (ho.mono (Nat.le_trans m1 m2)) q2
+    | false =>
+      simp only [Bool.false_eq_true, if_false]
+      refine spec_bind le (hf n0 h content le nc hct) ?_
+      intro h1 x _ m1 nc1 q1
+      exact spec_hSet nc1 (ho.mono m1) q1
+
+theorem spec_hStep1_rel (A : Atoms) {S : Sites} (hc : S.const.copies = true) (fuel : Nat) {n0 : Nat}
+    (inp out : Item) (k : String) (e : HCEntry) (he : e.OkRel) (h : Heap) (le : n0 ≤ h.next) (nc : NewClosed n0 h)
+    (ho : ItemIn n0 h out) (hi : ItemIn n0 h inp) :
+    Spec n0 h (hStep1 A S fuel inp out k e h) (fun _ _ => True) := by
+  cases e with
+  | const c => exact spec_hStep1 A hc fuel inp out k (.const c) trivial h le nc ho
+  | deleted => exact spec_pure nc trivial
+  | move p => exact spec_pure nc trivial
+  | fn f args => exact spec_hStep1 A hc fuel inp out k (.fn f args) he h le nc ho
+  | sub f =>
+    simp only [hStep1]
+    cases ed : dictItems h inp with
+    | none => exact spec_fail
+    | some its =>
+      simp only
+      have hI := dictItems_in nc hi ed
+      cases el : lookupItem k its with
+      | none => exact spec_pure nc trivial
+      | some content =>
+        obtain ⟨k', hk'⟩ := lookupItem_mem its content el
+        exact spec_hSub_rel A he k out h content le nc ho (hI _ hk')
+
+theorem spec_hLoop_inv {n0 : Nat} {I : Heap → Prop} (mono : ∀ h h', h.next ≤ h'.next → I h → I h')
+    {step : String → HCEntry → Heap → R Unit} :
+    ∀ (m : HCMapping),
+      (∀ p, p ∈ m → ∀ h, n0 ≤ h.next → NewClosed n0 h → I h → Spec n0 h (step p.1 p.2 h) (fun _ _ => True)) →
+      ∀ h, n0 ≤ h.next → NewClosed n0 h → I h → Spec n0 h (hLoop step m h) (fun _ _ => True) := by
+  intro m
+  induction m with
+  | nil => intro _ h _ nc _; exact spec_pure nc trivial
+  | cons p rest ih =>
+    intro hs h le nc hI
+    obtain ⟨k, e⟩ := p
+    simp only [hLoop]
+    refine spec_bind le (hs (k, e) List.mem_cons_self h le nc hI) ?_
+    intro h1 _ le1 m1 nc1 _
+    exact ih (fun p hp => hs p (List.mem_cons_of_mem _ hp)) h1 le1 nc1 (mono _ _ m1 hI)
+
+/-- `_convert` with resolved nested converters, ANY mode at S2, on an input of the region -/
+theorem hConvShape_rel (A : Atoms) (S : Sites) (hc : S.const.copies = true) (fuel : Nat) {m : HCMapping}
+    (hm : COkRel m) : ConvRel (hConvShape A S fuel m) := by
+  intro n0 h inp le nc hi
+  simp only [hConvShape]
+  refine spec_bind le (spec_copyAt_rel S.step fuel le nc hi) ?_
+  intro h1 out le1 m1 nc1 ho1
+  have hi1 := hi.mono m1
+  refine spec_bind le1 (spec_hLoop_inv (I := fun h => ItemIn n0 h out ∧ ItemIn n0 h inp)
+    (fun _ _ le x => ⟨x.1.mono le, x.2.mono le⟩) m
+    (fun p hp h le nc x => spec_hStep1_rel A hc fuel inp out p.1 p.2 (hm p hp) h le nc x.1 x.2)
+    h1 le1 nc1 ⟨ho1, hi1⟩) ?_
+  intro h2 _ le2 m2 nc2 _
+  have ho2 := ho1.mono m2
+  refine spec_bind le2 (spec_hLoop m (fun p _ h le nc ho => spec_hStep2 A fuel out p.1 p.2 h le nc ho)
+    h2 le2 nc2 ho2) ?_
+  intro h3 _ le3 m3 nc3 _
+  have ho3 := ho2.mono m3
+  refine spec_bind le3 (spec_hLoop m (fun p _ h _ nc ho => spec_hStep3 A out p.1 p.2 h nc ho)
+    h3 le3 nc3 ho3) ?_
+  intro h4 _ _ m4 nc4 _
+  exact spec_pure nc4 (ho3.mono m4)
+
+mutual
+theorem compile_rel (A : Atoms) (S : Sites) (hc : S.const.copies = true) (fuel : Nat) :
+    (e : HEntry) → e.FnsOk → (e.compile A S fuel).OkRel
+  | .const _, _ => by simp only [HEntry.compile, HCEntry.OkRel]
+  | .deleted, _ => by simp only [HEntry.compile, HCEntry.OkRel]
+  | .move _, _ => by simp only [HEntry.compile, HCEntry.OkRel]
+  | .fn f _, h => by
+    simp only [HEntry.FnsOk] at h
+    simp only [HEntry.compile, HCEntry.OkRel]; exact h
+  | .sub m, h => by
+    simp only [HEntry.FnsOk] at h
+    simp only [HEntry.compile, HCEntry.OkRel]
+    exact hConvShape_rel A S hc fuel (compileMap_rel A S hc fuel m h)
+theorem compileMap_rel (A : Atoms) (S : Sites) (hc : S.const.copies = true) (fuel : Nat) :
+    (m : List (String × HEntry)) → mapFnsOk m → COkRel (compileMap A S fuel m)
+  | [], _ => by intro p hp; simp only [compileMap] at hp; exact nomatch hp
+  | (k, e) :: r, h => by
+    simp only [mapFnsOk] at h
+    intro p hp
+    simp only [compileMap] at hp
+    cases hp with
+    | head => exact compile_rel A S hc fuel e h.1
+    | tail _ hp' => exact compileMap_rel A S hc fuel r h.2 p hp'
+end
+
+/-- `_convert`, any mapping (any nesting), ANY mode at S2: on an input that lies in the region `[n0, next)` it
+    writes nothing below `n0`, keeps the region closed and returns an item of the region -/
+theorem hConvert_rel (A : Atoms) (S : Sites) (hc : S.const.copies = true) (fuel : Nat) (m : HMapping)
+    (hm : mapFnsOk m) : ConvRel (hConvert A S fuel m) :=
+  hConvShape_rel A S hc fuel (compileMap_rel A S hc fuel m hm)
+
+theorem spec_hRunSteps_rel (A : Atoms) (S : Sites) (hc : S.const.copies = true) (fuel : Nat) (ver : Nat → Int)
+    {n0 : Nat} :
+    ∀ (ms : List HMapping), (∀ m, m ∈ ms → mapFnsOk m) → ∀ (i : Nat) (h : Heap) (d : Item),
+      n0 ≤ h.next → NewClosed n0 h → ItemIn n0 h d →
+      Spec n0 h (hRunSteps A S fuel ver ms i h d) (ItemIn n0) := by
+  intro ms
+  induction ms with
+  | nil => intro _ i h d _ nc hd; exact spec_pure nc hd
+  | cons m rest ih =>
+    intro hm i h d le nc hd
+    simp only [hRunSteps]
+    refine spec_bind le (hConvert_rel A S hc fuel m (hm m List.mem_cons_self) n0 h d le nc hd) ?_
+    intro h1 d1 le1 _ nc1 q1
+    refine spec_bind le1 (spec_hSet nc1 q1 (itemIn_atom _ _ _)) ?_
+    intro h2 _ le2 m2 nc2 _
+    exact ih (fun m' hm' => hm m' (List.mem_cons_of_mem _ hm')) (i + 1) h2 d1 le2 nc2 (q1.mono m2)
+
+/-- `convert_dict` under the weak hypotheses (S1 and S3 copy; S2 arbitrary): the combined specification -/
+theorem hConvertDict_ok_weak (A : Atoms) {S : Sites} (hd : S.doc.copies = true) (hc : S.const.copies = true)
+    (fuel : Nat) (ver : Nat → Int) (ms : List HMapping) (hm : ∀ m, m ∈ ms → mapFnsOk m) :
+    ConvOk (hConvertDict A S fuel ver ms) := by
+  intro n0 h doc le nc
+  simp only [hConvertDict]
+  cases dictItems h doc with
+  | none => exact spec_fail
+  | some its =>
+    simp only
+    refine spec_bind le (spec_copyAt hd fuel doc le nc) ?_
+    intro h1 d le1 _ nc1 q1
+    exact spec_hRunSteps_rel A S hc fuel ver ms hm 0 h1 d le1 nc1 q1
+
+/-- **C17 at heap level, `convert_dict`, weak hypotheses**: only `convert_dict`'s own deep copy (S1) and the
+    copy of `Constant` values (S3) are needed — for EVERY mode at S2 (`deep`, `shallow`, `alias`, …) -/
+theorem hConvertDict_intact_weak (A : Atoms) {S : Sites} (hd : S.doc.copies = true) (hc : S.const.copies = true)
+    (fuel : Nat) (ver : Nat → Int) (ms : List HMapping) (hm : ∀ m, m ∈ ms → mapFnsOk m) :
+    IntactFor (hConvertDict A S fuel ver ms) :=
+  (hConvertDict_ok_weak A hd hc fuel ver ms hm).intact
+
+theorem hConvertDict_frame_weak (A : Atoms) {S : Sites} (hd : S.doc.copies = true) (hc : S.const.copies = true)
+    (fuel : Nat) (ver : Nat → Int) (ms : List HMapping) (hm : ∀ m, m ∈ ms → mapFnsOk m) (h : Heap) (doc : Item)
+    (h' : Heap) (r : Option Item) (e : hConvertDict A S fuel ver ms h doc = (h', r)) : Frame h h' :=
+  (hConvertDict_ok_weak A hd hc fuel ver ms hm).frameSpec h doc h' r e
+
+theorem hConvertDict_fresh_weak (A : Atoms) {S : Sites} (hd : S.doc.copies = true) (hc : S.const.copies = true)
+    (fuel : Nat) (ver : Nat → Int) (ms : List HMapping) (hm : ∀ m, m ∈ ms → mapFnsOk m) (h : Heap) (doc : Item)
+    (h' : Heap) (res : Item) (e : hConvertDict A S fuel ver ms h doc = (h', some res)) :
+    ItemIn h.next h' res ∧ NewClosed h.next h' := by
+  have := (hConvertDict_ok_weak A hd hc fuel ver ms hm).freshSpec h.next h doc h' res (Nat.le_refl _)
+    (newClosed_init h) e
+  exact ⟨this.2, this.1⟩
+
+theorem hConvertDict_disjoint_weak (A : Atoms) {S : Sites} (hd : S.doc.copies = true) (hc : S.const.copies = true)
+    (fuel : Nat) (ver : Nat → Int) (ms : List HMapping) (hm : ∀ m, m ∈ ms → mapFnsOk m) (h : Heap) (doc : Item)
+    (h' : Heap) (res : Item) (e : hConvertDict A S fuel ver ms h doc = (h', some res))
+    (cb : ClosedBelow h.next h) (K : List Nat) (hK : ∀ r, r ∈ K → r < h.next) :
+    ∀ b, Held h' (roots res) b → (h.next ≤ b ∧ b < h'.next) ∧ ¬ Held h' K b := by
+  have fr := hConvertDict_frame_weak A hd hc fuel ver ms hm h doc h' _ e
+  have fs := hConvertDict_fresh_weak A hd hc fuel ver ms hm h doc h' res e
+  intro b hb
+  exact ⟨sep_result_region fs.2 fs.1 b hb, sep_disjoint fr fs.2 fs.1 cb K hK b hb⟩
+
 /-! ## `FnOk` is satisfiable by functions that really use their arguments -/
 
 theorem fnIdent_ok (A : Atoms) : FnOk (fnIdent A) := by
@@ -983,5 +1201,25 @@ theorem example_all_deep_by_theorem :
   intro res e
   exact hConvertDict_fresh exAtoms hS 9 (fun i => 2 + i) [exMapping] hm exHeap (.ref 0) (exRun allDeep).1 res
     (by rw [← e]; rfl)
+
+/-- **S2 is NOT needed for `convert_dict`**: with no copy at all / a shallow copy in `_convert` (S1 and S3
+    deep) the run on the example still succeeds, leaves every old cell unchanged and shares nothing old -/
+theorem step_alias_or_shallow_still_intact :
+    (exRun { allDeep with step := .alias }).2.isSome = true ∧
+    sameBelow exHeap.next exHeap (exRun { allDeep with step := .alias }).1 = true ∧
+    sharedPaths 8 (exRun { allDeep with step := .alias }).1 exOld [] (resOf (exRun { allDeep with step := .alias })) = [] ∧
+    (exRun { allDeep with step := .shallow }).2.isSome = true ∧
+    sameBelow exHeap.next exHeap (exRun { allDeep with step := .shallow }).1 = true ∧
+    sharedPaths 8 (exRun { allDeep with step := .shallow }).1 exOld [] (resOf (exRun { allDeep with step := .shallow })) = [] ∧
+    (observeN 6 (exRun { allDeep with step := .alias }).1 (resOf (exRun { allDeep with step := .alias }))).beq
+      (observeN 6 (exRun allDeep).1 (resOf (exRun allDeep))) = true ∧
+    (observeN 6 (exRun { allDeep with step := .shallow }).1 (resOf (exRun { allDeep with step := .shallow }))).beq
+      (observeN 6 (exRun allDeep).1 (resOf (exRun allDeep))) = true := by
+  decide +kernel
+
+theorem example_step_alias_by_theorem : IntactFor (hConvertDict exAtoms { allDeep with step := .alias } 9
+    (fun i => 2 + i) [exMapping]) :=
+  hConvertDict_intact_weak exAtoms rfl rfl 9 _ [exMapping]
+    (by intro m hmem; simp only [List.mem_singleton] at hmem; subst hmem; exact exMapping_fnsOk)
 
 end Typedpy.AliasC17
